@@ -278,6 +278,161 @@ def string_payloads(t, found, loops=()):
             visit(sq.parts, loops)
 
 
+# ------------------------------------------------------------------------------------------------------------------------------
+# iterator chains in statement position, as the loops they are
+# ------------------------------------------------------------------------------------------------------------------------------
+def _has_return(node):
+    """a `return` (or break/continue) that belongs to this closure body (nested closures have their own)"""
+    if isinstance(node, dict):
+        if node.get("k") in ("return", "break", "continue"):
+            return True
+        if node.get("k") == "closure":
+            return False
+        return any(_has_return(v) for v in node.values())
+    if isinstance(node, list):
+        return any(_has_return(v) for v in node)
+    return False
+
+
+def _closure1(args, nparams):
+    if len(args) != 1 or not isinstance(args[0], dict) or args[0].get("k") != "closure":
+        return None
+    c = args[0]
+    if len(c.get("params") or []) != nparams or _has_return(c["body"]):
+        return None
+    return c
+
+
+def _stmt(e, line):
+    return {"k": "expr", "e": e, "semi": True, "line": line}
+
+
+def _tail_try(body, line):
+    """statements of `{ BODY }?`-per-item: the value of the closure body is a Result that `try_for_each` tests like `?` does"""
+    if body.get("k") == "block":
+        st = list(body["stmts"])
+        if not st or st[-1].get("k") != "expr" or st[-1].get("semi"):
+            return None
+        return st[:-1] + [_stmt({"k": "try", "e": st[-1]["e"], "line": st[-1].get("line", line)}, st[-1].get("line", line))]
+    return [_stmt({"k": "try", "e": body, "line": body.get("line", line)}, line)]
+
+
+def _for(pat, it, stmts, line):
+    # the bytes of a str one by one: `s.bytes()` yields what `s.as_bytes()` points to (u8 and &u8 format identically)
+    if it.get("k") == "mcall" and it["m"] == "bytes" and not it["args"]:
+        it = dict(it, m="as_bytes")
+    return {"k": "for", "pat": pat, "iter": it, "label": None, "line": line, "body": {"k": "block", "line": line, "stmts": stmts}}
+
+
+def _desugar_stmt_expr(e, semi):
+    """an expression statement written with an iterator/Option combinator -> the loop / `if` it is, or None.
+         I.try_for_each(|P| B)?            ==  for P in I { B?; }     (stops at the first Err and returns it, like `?` in the loop)
+         I.for_each(|P| B)                 ==  for P in I { B; }
+         C.then(|| X).transpose()?;        ==  if C { X?; }           (value discarded)
+       closures with their own return/break/continue are left alone."""
+    if not isinstance(e, dict):
+        return None
+    line = e.get("line", 0)
+    if e.get("k") == "try" and isinstance(e.get("e"), dict) and e["e"].get("k") == "mcall":
+        mc = e["e"]
+        if mc["m"] == "try_for_each":
+            c = _closure1(mc["args"], 1)
+            st = _tail_try(c["body"], line) if c else None
+            if st is not None:
+                return _for(c["params"][0], mc["recv"], st, line)
+        if mc["m"] == "transpose" and not mc["args"] and semi and isinstance(mc["recv"], dict) and mc["recv"].get("k") == "mcall" \
+                and mc["recv"]["m"] == "then":
+            c = _closure1(mc["recv"]["args"], 0)
+            cond = mc["recv"]["recv"]
+            while isinstance(cond, dict) and cond.get("k") == "paren":
+                cond = cond["e"]
+            st = _tail_try(c["body"], line) if c else None
+            if st is not None:
+                return {"k": "if", "cond": cond, "line": line, "else": None, "then": {"k": "block", "line": line, "stmts": st}}
+    if e.get("k") == "mcall" and e["m"] == "for_each":
+        c = _closure1(e["args"], 1)
+        if c:
+            b = c["body"]
+            st = list(b["stmts"]) if b.get("k") == "block" else [_stmt(b, line)]
+            if st and st[-1].get("k") == "expr" and not st[-1].get("semi"):
+                st = st[:-1] + [dict(st[-1], semi=True)]
+            return _for(c["params"][0], e["recv"], st, line)
+    return None
+
+
+def loops_for_chains(node):
+    """copy of a syn node with statement-position iterator chains rewritten to the loops they are (see _desugar_stmt_expr), innermost included"""
+    if isinstance(node, list):
+        return [loops_for_chains(x) for x in node]
+    if not isinstance(node, dict):
+        return node
+    if node.get("k") == "expr" and "semi" in node and isinstance(node.get("e"), dict):
+        d = _desugar_stmt_expr(node["e"], node.get("semi"))
+        if d is not None:
+            return dict(node, e=loops_for_chains(d), semi=True if d["k"] == "if" else node.get("semi"))
+    return {k: loops_for_chains(v) for k, v in node.items()}
+
+
+_ZERO_LIT = re.compile(r"^0(?:_?[ui](?:8|16|32|64|128|size))?$")
+_INDEX_KEY = re.compile(r"^v:(#index\d*)$")
+
+
+def _index_zero_as_cmp(p):
+    """`index matches the literal pattern 0` (match index { 0 => .. } / if let 0 = index) asks what `index == 0` asks: one comparison
+    variable.  Returns (predicate, index name or None)."""
+    k = p[0]
+    if k == "var":
+        m = _INDEX_KEY.match(p[1])
+        if m and p[2] and all(_ZERO_LIT.match(v) for v in p[2]):
+            return T.p_var("c:%s,0" % m.group(1), {"eq"}), m.group(1)
+        return p, None
+    if k == "not":
+        q, nm = _index_zero_as_cmp(p[1])
+        return (T.p_not(q) if nm else p), nm
+    return p, None
+
+
+def separator_idioms(t, enclosing=0):
+    """The separator idiom of an enumerated loop decided on meaning: a loop body that starts with a two-way choice on `index is 0`, whichever
+    construct asks it (`if index != 0`, `if index == 0 {} else`, `match index { 0 => {}, _ => SEP }`, `if let 0 = index {} else`), is the
+    Join the `if` form is.  The extractor recognises the comparison forms; the literal-pattern forms are rewritten to the comparison variable
+    here and handed to the same recogniser (T.as_join), which keeps its own side conditions (first branch empty, SEP writes, ITEM does not
+    mention the index).  Only the loop's own index qualifies: nested enumerated loops are left alone."""
+    if isinstance(t, T.Seq):
+        return T.Seq([separator_idioms(i, enclosing) for i in t.items])
+    if isinstance(t, T.Scope):
+        return T.Scope(separator_idioms(t.body, enclosing), t.name)
+    if isinstance(t, T.Alt):
+        return T.Alt([(p, separator_idioms(b, enclosing)) for p, b in t.branches], line=t.line)
+    if isinstance(t, T.Join):
+        inner = enclosing + (1 if (t.star is not None and t.star.names.get("index")) or t.star is None else 0)
+        return T.Join(t.over, separator_idioms(t.sep, inner), separator_idioms(t.item, inner), star=t.star, line=t.line)
+    if isinstance(t, T.Star):
+        own = bool(t.names.get("index"))
+        body = separator_idioms(t.body, enclosing + (1 if own else 0))
+        s = T.Star(body, t.iter_text, t.names, kind=t.kind, iter_node=t.iter_node, line=t.line)
+        if hasattr(t, "enumerated"):
+            s.enumerated = t.enumerated
+        if not own or enclosing or t.kind != "for":
+            return s
+        items = body.items if isinstance(body, T.Seq) else [body]
+        # leading empty pieces (a debug_assert!, a non-writing let) do not matter for what is written
+        k = 0
+        while k < len(items) and not isinstance(items[k], T.Alt) and T.is_empty(items[k]):
+            k += 1
+        if k >= len(items) or not isinstance(items[k], T.Alt) or len(items[k].branches) != 2:
+            return s
+        (p1, t1), (p2, t2) = items[k].branches
+        q1, nm = _index_zero_as_cmp(p1)
+        if nm is None or p2 != T.TRUE:
+            return s
+        cand = T.Star(T.Seq([T.Alt([(q1, t1), (p2, t2)], line=items[k].line)] + list(items[k + 1:])), t.iter_text, t.names, kind=t.kind,
+                      iter_node=t.iter_node, line=t.line)
+        j = T.as_join(cand, nm)
+        return j if j is not None else s
+    return t
+
+
 def run(ctx):
     src, prog = ctx.src, ctx.prog
     ctx.explanation = (
@@ -366,8 +521,16 @@ def run(ctx):
             ctx.violation("TEMPLATE", v, "unsupported-construct", "arm of %s has a guard" % v, sites=sites)
             continue
         try:
-            t = ex.arm_template(case, arm["body"], T.mkpath("$"))
+            try:
+                t = ex.arm_template(case, arm["body"], T.mkpath("$"))
+            except T.Unsupported:
+                # iterator chains whose closures write to the sink (try_for_each / for_each / then..transpose) are the loops they stand for
+                body2 = loops_for_chains(arm["body"])
+                if body2 == arm["body"]:
+                    raise
+                t = ex.arm_template(case, body2, T.mkpath("$"))
             t = T.inline_calls(t, resolver, src)
+            t = separator_idioms(t)               # `match index { 0 => {}, _ => SEP }` is the join `if index != 0 { SEP }` is
             # the bytes of a String/&str are what its Display writes
             t = T.variant_eq_as_match(t)          # `x == Enum::V` and `matches!(x, Enum::V)` are one case variable
             # ... and the UTF-8 encoding of a char (encode_utf8 into a buffer of >= 4 bytes, to_string) is what its Display writes
@@ -693,6 +856,35 @@ def _term_upper(term, nearest_max, table_max):
     return None
 
 
+def _operand_upper(body, operand, nearest_max, table_max, depth=0):
+    """upper bound of an operand: of its canonical term, or -- for a local that is assigned on several paths (the value of a `match`/`if`
+    whose arms pick constants or table elements: `match level { 0 => T[0], 1 => T[1], .. }`) -- the largest bound over all its assignments.
+    None when some assignment is anything else than a plain use, when the local may be written through a reference, or on a cycle."""
+    from ..flow import expr
+    u = _term_upper(expr(body, operand), nearest_max, table_max)
+    if u is not None or depth > 4:
+        return u
+    if operand.get("k") not in ("copy", "move") or operand["place"]["p"]:
+        return None
+    l = operand["place"]["l"]
+    for _, _, st in body.assigns():
+        rv = st["rv"]
+        if rv.get("k") in ("ref", "addr", "addrof", "rawptr") and rv.get("place", {}).get("l") == l and (rv.get("mut") or rv.get("k") != "ref"):
+            return None
+    defs = body.defs_of(l)
+    if not defs:
+        return None
+    best = 0
+    for _, si, rv in defs:
+        if si == "term" or not isinstance(rv, dict) or rv.get("k") != "use":
+            return None
+        d = _operand_upper(body, rv["a"], nearest_max, table_max, depth + 1)
+        if d is None:
+            return None
+        best = max(best, d)
+    return best
+
+
 def nearest_range_lemmas(ctx, lemmas):
     """`encoder::nearest(v, vs)` is given its value (source expression, std binary_search_by modelled) on every outcome of the search (Ok(i), Err(i))
     and every outcome of the neighbour comparison, for a strictly increasing table of each length it is called with: the result is an index < len and no
@@ -825,7 +1017,7 @@ def nearest_range_lemmas(ctx, lemmas):
                     if ln == "PtrMetadata(%s)" % parts[1] or (re.fullmatch(r"\d+", ln) and int(ln) >= n_tab):
                         lemmas.setdefault((path, keys[id(o)]), ("NEAREST-RANGE", why))
             elif o.kind == "OVF" and o.sub in ("Add", "Mul") and msg.get("a") and msg.get("b"):
-                ua, ub = _term_upper(expr(b, msg["a"]), nearest_max, table_max), _term_upper(expr(b, msg["b"]), nearest_max, table_max)
+                ua, ub = _operand_upper(b, msg["a"], nearest_max, table_max), _operand_upper(b, msg["b"], nearest_max, table_max)
                 tys = []
                 for opnd in (msg["a"], msg["b"]):
                     if opnd.get("k") in ("copy", "move"):
